@@ -51,9 +51,15 @@ def cpython(expr, env):
         return 'other:' + type(e).__name__, None
 
 
+# empty containers have the operand type without an element type to go by
+EMPTY = [('empty_list', '[]'), ('empty_tuple', '()'), ('empty_str', "''")]
+
+
 def ground(arg):
     out = []
-    for (na, la), (nb, lb) in itertools.product(CORE, CORE):
+    cells = list(itertools.product(CORE, CORE)) + list(itertools.product(EMPTY, CORE + EMPTY)) + \
+        list(itertools.product(CORE, EMPTY))
+    for (na, la), (nb, lb) in cells:
         env = {'a': eval(la), 'b': eval(lb)}
         for op in BINOPS + COMPARES:
             oid = 'cell[%s %s %s]' % (na, op, nb)
@@ -109,7 +115,9 @@ def ground(arg):
     return out
 
 
-VALUES = [1, 2.5, True, 's', None, [], [1], [1, 2.5], ['a', 1], (1, 's'), (), {'a': 1}, {}, {1, 2}, set(),
+TUPLE_KEYED = [{k1: v1, k2: v2} for k1, k2 in [((1, 2), (3, 4)), ((), (1, 'a')), ((1,), (2,)), (('a', 1), ('b', 2))]
+               for v1, v2 in [('a', 5), (1, 2), (1, 2.5), ([1], ['s']), (None, 's'), ((1,), (1, 2))]]
+VALUES = TUPLE_KEYED + [[d] for d in TUPLE_KEYED[:4]] + [1, 2.5, True, 's', None, [], [1], [1, 2.5], ['a', 1], (1, 's'), (), {'a': 1}, {}, {1, 2}, set(),
           {1, 'a'}, {(1, 2), 's'}, [[1], [2]], {'k': [1, 2]}, [(1, 's'), (2, 't')], {'a': {'b': 1.5}}, [None], (1, (2, (3,)))]
 
 
